@@ -346,8 +346,10 @@ pub fn run(cfg: &Cfg, rep: &mut Rep) {
         let s = gen::rand_scale(&mut r);
         match r.below(5) {
             0 => {
-                let w = match r.below(4) {
+                let w = match r.below(5) {
                     0 => r.below(3000) as u32,
+                    // a week number that aliases an ordinary one modulo 2^16 / 2^10 (GPS roll-over arithmetic)
+                    4 => ((r.below(3000) as u32) + (1 + r.below(2) as u32) * *r.pick(&[1u32 << 16, 1 << 10, 1 << 13])).min(wmax),
                     1 => *r.pick(&weeks),
                     _ => r.below(wmax as u64 + 1) as u32,
                 };
@@ -357,8 +359,10 @@ pub fn run(cfg: &Cfg, rep: &mut Rep) {
                     let wk = r.range_i128(((tot - u64::MAX as i128).max(0) + NS_W - 1) / NS_W, tot / NS_W);
                     check_tow(rep, wk as u32, (tot - wk * NS_W) as u64, s);
                 }
-                let ns = match r.below(4) {
+                let ns = match r.below(5) {
                     0 => r.below(NS_W as u64),
+                    // nanoseconds of week that alias a small value modulo 2^32 / 2^53
+                    4 => (r.below(1 << 20) + (1 + r.below(3)) * *r.pick(&[1u64 << 32, 1 << 53, 1 << 48])) % (3 * NS_W as u64),
                     1 => *r.pick(&nss),
                     2 => r.u64(),
                     _ => r.below(3 * NS_W as u64),
